@@ -246,12 +246,27 @@ func writeInflight(prop, test string, sc any) {
 		return
 	}
 	b, _ := json.Marshal(sc)
-	writeJSON(filepath.Join(outDir(), fmt.Sprintf("inflight-%s-%s.json", prop, shard())), failureFile{Prop: prop, Test: test, Scenario: b})
+	writeJSON(filepath.Join(outDir(), fmt.Sprintf("inflight-%s-%s-%s.json", prop, fileTestName(test), shard())), failureFile{Prop: prop, Test: test, Scenario: b})
+}
+
+// fileTestName is the top-level test's name as used in file names (jobs of one property run side by side and
+// must not overwrite each other's scenario files).
+func fileTestName(test string) string {
+	if i := strings.IndexByte(test, '/'); i >= 0 {
+		test = test[:i]
+	}
+	var sb strings.Builder
+	for _, r := range test {
+		if r == '_' || r >= '0' && r <= '9' || r >= 'a' && r <= 'z' || r >= 'A' && r <= 'Z' {
+			sb.WriteRune(r)
+		}
+	}
+	return sb.String()
 }
 
 func writeFailure(prop, test string, sc any, diffs []Diff) {
 	b, _ := json.Marshal(sc)
-	writeJSON(filepath.Join(outDir(), fmt.Sprintf("failure-%s-%s.json", prop, shard())), failureFile{Prop: prop, Test: test, Scenario: b, Diffs: diffs})
+	writeJSON(filepath.Join(outDir(), fmt.Sprintf("failure-%s-%s-%s.json", prop, fileTestName(test), shard())), failureFile{Prop: prop, Test: test, Scenario: b, Diffs: diffs})
 }
 
 // filterDiffs keeps the diffs that belong to prop and are not listed known findings.
